@@ -4,8 +4,7 @@
   `MeasurementCNOTandReset` on existing qubits.  (The density-matrix compile may return the NaN state `ρ = none` after a
   measurement whose conditional probability is 0; it still returns.)
 -/
-import GraphiqModel.Proofs.MixtureDMTotal
-import GraphiqModel.Proofs.MixtureDMPhysMeas
+import GraphiqModel.Proofs.MixtureDMJointCircuit
 namespace Graphiq
 namespace MixDM
 open Matrix Hilbert Noise DM
@@ -31,12 +30,6 @@ theorem OpRuns2.gate {n np : Nat} {op : COp} (h : OpRuns2 n np op) :
 
 /-! ### the stabilizer side -/
 
-theorem measure_ne_nil (q : Nat) (det : Bool) (m : Mixture) (h : m ≠ []) : (Mix.measure q det m).1 ≠ [] := by
-  intro e
-  have := (Mix.measure_length q det m).1
-  rw [e] at this
-  exact h (List.eq_nil_of_length_eq_zero this.symm)
-
 theorem conditioned_ne_nil (f : Tab → Tab) (outs : List Bool) (m : Mixture) (hl : outs.length = m.length) (h : m ≠ []) :
     Mix.conditioned f outs m ≠ [] := by
   cases m with
@@ -59,8 +52,8 @@ theorem stabMeasGate_runs (np n : Nat) (det : Bool) (op : COp) (hk : MeasAny op.
     rw [if_pos ⟨hq1, hw.2.1 (Or.inr hc)⟩]
     refine ⟨_, rfl, ?_⟩
     intro hm
-    have hl := Mix.measure_length (qIndex np op.r1 op.t1) det s.mix
-    have h2 := conditioned_ne_nil f _ _ (by rw [hl.1, hl.2]) (measure_ne_nil _ det s.mix hm)
+    have hl := Mix.measure_lengths (qIndex np op.r1 op.t1) det s.mix
+    have h2 := conditioned_ne_nil f _ _ hl (measure_ne_nil _ det s.mix hm)
     cases reset
     · simpa using h2
     · simpa using mapTab_ne_nil _ _ h2
